@@ -198,6 +198,7 @@ def run(ctx):
     outs = [v for v in r.printed if v[0] == 'OUT']
     if len(outs) < 2 * (maxlen + 1):
         raise Exception('only %d roots exported' % len(outs))
+    outs.sort(key=lambda v: (v[1], v[2]))     # TLC prints in worker order; the replay order must not depend on it
     rng = random.Random(ctx.seed * 7919 + 31)
     seen = set()
     for _, mode, shape, root in outs:
